@@ -59,6 +59,8 @@ type c08Input struct {
 	Query int    `json:"query"`
 	Limit int    `json:"limit"`
 	Text  string `json:"text,omitempty"`
+	// Backward: the request asks for direction "backward": entries inside a stream are in timestamp order all the same
+	Backward bool `json:"backward,omitempty"`
 }
 
 func c08Queries() []*refmodel.LogQuery {
@@ -72,6 +74,12 @@ func c08Queries() []*refmodel.LogQuery {
 		{Stages: []refmodel.Stage{&refmodel.JSONStage{}, &refmodel.Drop{Items: []refmodel.DKItem{{Label: "a"}, {Label: "msg"}}}}},
 		{Stages: []refmodel.Stage{&refmodel.LineFilter{Op: "!=", Value: "q"}, &refmodel.Keep{Items: []refmodel.DKItem{{Label: "b"}}}}},
 		{Stages: []refmodel.Stage{&refmodel.JSONStage{}, &refmodel.Keep{Items: []refmodel.DKItem{{Label: "a"}}}}},
+		// two drop stages in a row on one label (each stage on its own: the second sees what the first left)
+		{Stages: []refmodel.Stage{&refmodel.Drop{Items: []refmodel.DKItem{{Label: "a", Op: "=", Value: `x`}}}, &refmodel.Drop{Items: []refmodel.DKItem{{Label: "a", Op: "=", Value: `x"y`}}}}},
+		{Stages: []refmodel.Stage{&refmodel.Drop{Items: []refmodel.DKItem{{Label: "b"}}}, &refmodel.Drop{Items: []refmodel.DKItem{{Label: "b", Op: "=", Value: `y`}, {Label: "a", Op: "=~", Value: `x.*`}}}}},
+		// an address filter over values that are no addresses, the same one several times in a row
+		{Stages: []refmodel.Stage{&refmodel.LabelFilter{P: &refmodel.PIP{Label: "b", Op: "!=", Value: "10.0.0.0/8"}}}},
+		{Stages: []refmodel.Stage{&refmodel.LabelFilter{P: &refmodel.PIP{Label: "a", Op: "==", Value: "10.0.0.0/8"}}}},
 		// a label rewritten from its own old value: records that shared a label set still share one afterwards
 		{Stages: []refmodel.Stage{&refmodel.LabelFormat{Items: []refmodel.LFItem{{Dst: "a", T: refmodel.Template{{Label: "a"}, {Lit: "-p"}}}}}}},
 	}
@@ -132,6 +140,8 @@ func c08Check(r *vkit.Run, in c08Input) bool {
 		data = data[2:]
 	} else if strings.HasPrefix(in.Times, "perm:") {
 		res = evalLogOn(newEngine(mockq.NewUnsorted(data)), in.Text, 0, 1<<50, in.Limit)
+	} else if in.Backward {
+		res = evalLogDir(newEngine(mockq.New(data)), in.Text, 0, 1<<50, in.Limit, "backward")
 	} else {
 		res = evalLog(data, logqlengine.QuerierCapabilities{}, in.Text, in.Limit)
 	}
@@ -284,6 +294,22 @@ func c08Run(r *vkit.Run) {
 			r.NonTrivial()
 		}
 		r.State(fmt.Sprint(s))
+	}
+	// the same with the direction of the request set to backward (limits that every record fits under, and none)
+	for _, sq := range [][]int{{7, 7, 7}, {0, 1, 2, 3, 4, 5}, {7, 0, 7, 0}, {2, 7, 4, 2, 7, 4}} {
+		idx++
+		if !r.Mine(idx) || r.Stop() {
+			continue
+		}
+		for _, tm := range []string{"inc", "pairs"} {
+			for _, qi := range []int{0, 3, 5} {
+				for _, lim := range []int{-1, 0, len(sq), len(sq) + 2} {
+					if c08Check(r, c08Input{Recs: sq, Times: tm, Query: qi, Limit: lim, Backward: true}) {
+						r.NonTrivial()
+					}
+				}
+			}
+		}
 	}
 	// a window that starts after the first records, in a range query without a step
 	for _, sq := range [][]int{{7, 7, 7, 0, 7}, {0, 1, 2, 3, 4, 5}, {7, 0, 7, 0}} {
